@@ -90,6 +90,17 @@ type c13req struct {
 
 // the client's view of one epoch: getBlock for every slot, getTransaction for every signature
 func c13requests(l *loaded) (out []c13req) {
+	seen := map[solana.PublicKey]bool{}
+	for _, bt := range l.built.Blocks {
+		for _, tt := range bt.Txs {
+			for _, a := range tt.Accounts {
+				if !seen[a] && len(seen) < 8 {
+					seen[a] = true
+					out = append(out, c13req{fmt.Sprintf(`{"jsonrpc":"2.0","id":1,"method":"getSignaturesForAddress","params":["%s",{"limit":1000}]}`, a), 0})
+				}
+			}
+		}
+	}
 	for _, bt := range l.built.Blocks {
 		out = append(out, c13req{fmt.Sprintf(`{"jsonrpc":"2.0","id":1,"method":"getBlock","params":[%d,{"encoding":"base64","maxSupportedTransactionVersion":0}]}`, bt.Spec.Slot), bt.Spec.Slot})
 		for _, tt := range bt.Txs {
@@ -105,8 +116,8 @@ func c13classify(body string, p any, wantSlot uint64) string {
 		return "panic"
 	}
 	var resp struct {
-		Result map[string]any `json:"result"`
-		Error  map[string]any `json:"error"`
+		Result json.RawMessage `json:"result"`
+		Error  map[string]any  `json:"error"`
 	}
 	if json.Unmarshal([]byte(body), &resp) != nil {
 		return "error"
@@ -119,12 +130,16 @@ func c13classify(body string, p any, wantSlot uint64) string {
 		}
 		return "error"
 	}
-	if resp.Result == nil {
+	if len(resp.Result) == 0 || string(resp.Result) == "null" {
 		return "notfound"
 	}
-	if s, ok := resp.Result["slot"].(float64); ok && uint64(s) != wantSlot {
-		return "different"
+	var obj map[string]any
+	if json.Unmarshal(resp.Result, &obj) == nil {
+		if s, ok := obj["slot"].(float64); ok && uint64(s) != wantSlot {
+			return "different"
+		}
 	}
+	// (lists - getSignaturesForAddress - are compared with the intact server's answer by the caller)
 	return "same"
 }
 
@@ -503,7 +518,7 @@ func TestVerifC13(t *testing.T) {
 	}
 	// the same cuts seen by a client: a server with this epoch and a second, intact epoch loaded; getTransaction for
 	// every signature and getBlock for every slot of this epoch through the JSON-RPC handler
-	l2 := vBuildAndLoad(t, c10spec(2, 1314), false, cache)
+	l2 := vBuildAndLoad(t, c10spec(2, 1314), true, cache)
 	refBody := map[string]string{}
 	{
 		multi := NewMultiEpoch(&Options{EpochSearchConcurrency: 2})
@@ -518,12 +533,13 @@ func TestVerifC13(t *testing.T) {
 	}
 	server := func(name string, set func(cfg *Config, p string)) c13Target {
 		return c13Target{name: "server/" + name, path: map[string]string{"sig-exists": l.paths.SignatureExists, "sig-to-cid": l.paths.SignatureToCid,
-			"slot-to-cid": l.paths.SlotToCid, "cid-to-offset-and-size": l.paths.CidToOffsetAndSize, "car": l.built.CarPath}[name],
+			"slot-to-cid": l.paths.SlotToCid, "cid-to-offset-and-size": l.paths.CidToOffsetAndSize, "car": l.built.CarPath,
+			"gsfa-linked-log": filepath.Join(l.gsfaDir, "linked-log"), "gsfa-pubkey": filepath.Join(l.gsfaDir, "pubkey-to-offset-and-size.index"),
+			"gsfa-manifest": filepath.Join(l.gsfaDir, "manifest")}[name],
 			disk: func(p string) (func() []string, error) {
 				cfg := *l.cfg
 				car := *l.cfg.Data.Car
 				cfg.Data.Car = &car
-				cfg.Indexes.Gsfa.URI = ""
 				set(&cfg, p)
 				ep, err := NewEpochFromConfig(&cfg, vCliCtx(), vSmallCache(t), nil)
 				if err != nil {
@@ -555,7 +571,11 @@ func TestVerifC13(t *testing.T) {
 		server("sig-to-cid", func(cfg *Config, p string) { cfg.Indexes.SigToCid.URI = URI(p) }),
 		server("slot-to-cid", func(cfg *Config, p string) { cfg.Indexes.SlotToCid.URI = URI(p) }),
 		server("cid-to-offset-and-size", func(cfg *Config, p string) { cfg.Indexes.CidToOffsetAndSize.URI = URI(p) }),
-		server("car", func(cfg *Config, p string) { cfg.Data.Car.URI = URI(p) }))
+		server("car", func(cfg *Config, p string) { cfg.Data.Car.URI = URI(p) }),
+		// (for the address-index files p is the cut file inside a copy of the directory)
+		server("gsfa-linked-log", func(cfg *Config, p string) { cfg.Indexes.Gsfa.URI = URI(filepath.Dir(p)) }),
+		server("gsfa-pubkey", func(cfg *Config, p string) { cfg.Indexes.Gsfa.URI = URI(filepath.Dir(p)) }),
+		server("gsfa-manifest", func(cfg *Config, p string) { cfg.Indexes.Gsfa.URI = URI(filepath.Dir(p)) }))
 	// every lookup pass is run twice on the same opened instance (a client retrying): an error in the first pass must not
 	// turn into "not found" / another value in the second; per key the worse of the two answers is reported
 	worse := func(a, b string) string {
@@ -680,12 +700,12 @@ func TestVerifC13(t *testing.T) {
 		for _, cut := range cuts {
 			// (a) truncated copy on disk, opened the way the server does
 			var p string
-			if strings.HasPrefix(tg.name, "gsfa/") {
+			if strings.HasPrefix(tg.name, "gsfa/") || strings.HasPrefix(tg.name, "server/gsfa-") {
 				dir := filepath.Join(scratch, fmt.Sprintf("gsfa-%d", cut))
 				os.MkdirAll(dir, 0o755)
 				for _, f2 := range []string{"linked-log", "pubkey-to-offset-and-size.index", "manifest"} {
 					b, _ := os.ReadFile(filepath.Join(l.gsfaDir, f2))
-					if "gsfa/"+f2 == tg.name {
+					if "gsfa/"+f2 == tg.name || filepath.Base(tg.path) == f2 && strings.HasPrefix(tg.name, "server/gsfa-") {
 						b = b[:cut]
 					}
 					os.WriteFile(filepath.Join(dir, f2), b, 0o644)
@@ -708,7 +728,7 @@ func TestVerifC13(t *testing.T) {
 				res = []string{"panic"}
 			}
 			emit(cut, "disk", "", res, oerr, -1)
-			if strings.HasPrefix(tg.name, "gsfa/") {
+			if strings.HasPrefix(tg.name, "gsfa/") || strings.HasPrefix(tg.name, "server/gsfa-") {
 				os.RemoveAll(filepath.Dir(p))
 			} else {
 				os.Remove(p)
